@@ -898,6 +898,10 @@ func (g *Gen) genKind(k string) *Op {
 		op := &Op{K: "node_reset", A: a.Idx, N: st}
 		if len(w.Validators) > 0 && r.Chance(0.4) {
 			op.V = w.Validators[r.Intn(len(w.Validators))].Idx + 1
+			if r.Chance(0.12) {
+				op.Mode = "upper"
+				e.probe("validator_named_in_uppercase_bech32")
+			}
 		}
 		if r.Chance(0.15) {
 			op.L = []int{g.pickActor(w.Actors).Idx}
